@@ -108,18 +108,49 @@ def _params(E, st, options, accept):
 
 
 def _FLAT(E, st, node, dl, dy, options, accept):
-    A = [node.z, dl.z, dy.z] + _params(E, st, options, accept)
+    A = [node.z, dl.z, _z(dy)] + _params(E, st, options, accept)
     return st.alloc(HList(PAIR_T, flat_arr(*A), flat_len(*A)))
 
 
+def _z(v):
+    """the object of an Optional on the paths where it is one (a None layer has raised before any clause is evaluated)"""
+    return v.inner.z if isinstance(v, VOpt) else v.z
+
+
 def _PRE(E, st, node, k, dl, dy, options, accept):
-    A = [node.z, k.z, dl.z, dy.z] + _params(E, st, options, accept)
+    A = [node.z, k.z, dl.z, _z(dy)] + _params(E, st, options, accept)
     return st.alloc(HList(PAIR_T, pre_arr(*A), pre_len(*A)))
+
+
+def name_rule(E, st, node, args, kws, k):
+    from pyvc.vals import VOpt, VNone
+    a = args[0]
+    if isinstance(a, VNone):
+        return E.raise_(st, 'AttributeError')                  # None.__module__
+    if isinstance(a, VOpt):
+        return E.guard(st, z3.Not(a.isnone), 'AttributeError', 'name_from_layer', node,
+                       lambda s: k(s, VObj('LayerRef', norm(a.inner.z))))
+    return k(st, VObj('LayerRef', norm(a.z)))
+name_rule.__name__ = 'name_from_layer(layer): the registered name, a pure function of the layer (AttributeError for None)'
 
 
 def isinstance_rule(E, st, node, args, kws, k):
     o, c = args
     name = c.name
+    from pyvc.vals import VOpt, VNone
+    if isinstance(o, VNone):
+        return k(st, VBool(z3.BoolVal(False)))
+    if isinstance(o, VOpt):                   # isinstance(None, ...) is False; otherwise the predicate of the object
+        inner = o.inner
+        if name == 'str':
+            pred = is_str
+        elif name == 'unittest.TestSuite':
+            pred = is_suite
+        elif name.endswith('StartUpFailure'):
+            pred = is_startup
+        else:
+            raise Exception("isinstance rule: %s" % name)
+        return k(st, VBool(z3.And(z3.Not(o.isnone), pred(inner.z))))
     if name == 'str':
         return k(st, VBool(is_str(o.z)))
     if name == 'unittest.TestSuite':
@@ -155,7 +186,7 @@ TFS = {
                    " forall(x, Str, implies(old(x in duplicated_test_ids), x in duplicated_test_ids)))"],
     },
     'rules': {'isinstance': isinstance_rule,
-              'name_from_layer': lambda E, st, node, args, kws, k: k(st, VObj('LayerRef', norm(args[0].z)))},
+              'name_from_layer': name_rule},
 }
 
 
